@@ -43,6 +43,40 @@ class Universe:
         self.facades.setdefault(h, f)
         return f
 
+    def pristine(self, x):
+        """a task nothing refers to and that refers to nothing: what a constructor call may stand for"""
+        if not 0 <= x < self.m:
+            return False
+        o = self.objs[x]
+        return (getattr(o, '_Task__parent', None) is None and o.wbs is None and not list(o.children)
+                and not list(o.predecessors) and not list(o.successors))
+
+    def ctor(self, x, kw):
+        """task x (pristine) is created anew BY THE CONSTRUCTOR with relation arguments: Task(id, parent=…, children=…, successors=…,
+        predecessors=…). The object is allocated first, so that what a refused call leaves behind stays observable."""
+        from pjplan import Task
+        old = self.objs[x]
+        args = {}
+        if kw.get('parent') is not None:
+            args['parent'] = self.obj(kw['parent'])
+        for k_, name in (('children', 'children'), ('succs', 'successors'), ('preds', 'predecessors')):
+            if kw.get(k_) is not None:
+                args[name] = [self.obj(v) for v in kw[k_]]
+        new = Task.__new__(Task)
+        self.objs[x] = new
+        self.tasks[x] = new
+        self.uid.pop(id(old), None)
+        self.uid[id(new)] = x
+        self.facades.pop(x, None)
+        self.arglists = {k: v for k, v in self.arglists.items() if x not in k}
+        self.retired = getattr(self, 'retired', []) + [old]        # (kept alive: its address must not be handed out again)
+        try:
+            new.__init__(old.id, name=old.name, prio=old.prio, **args)
+        finally:
+            for a in ('name', 'prio', 'rank'):
+                if not hasattr(new, a):
+                    setattr(new, a, getattr(old, a))
+
     def snap(self):
         rows = []
         for o in self.objs:
@@ -74,7 +108,10 @@ class Universe:
                 return [T(u) for u in us]
             return self.arglists.setdefault(tuple(us), [T(u) for u in us])
         one_or_list = lambda us, single: T(us[0]) if single and len(us) == 1 else L(us)
-        if k == 'setParent':
+        if k == 'ctor':
+            if self.pristine(op[1]):
+                self.ctor(op[1], op[2])
+        elif k == 'setParent':
             T(op[1]).parent = T(op[2])
         elif k == 'setChildren':
             h = op[1]
@@ -628,6 +665,42 @@ def steer(u, op, rnd, p=0.35):
     return op
 
 
+def ctor_op(u, rnd):
+    """a constructor call with relation arguments for a task nothing refers to yet (the constructor applies parent, children, successors,
+    predecessors in that order through the setters): one relation, or successors AND predecessors - chosen, more often than not, so that
+    the call must be refused (the id is taken in the parent's tree; a successor already is a predecessor of a predecessor)"""
+    pr = [x for x in range(u.m) if u.pristine(x)]
+    if not pr:
+        return None
+    x = rnd.choice(pr)
+    others = [t for t in range(u.m) if t != x]
+    if not others:
+        return None
+    some = lambda lo: rnd.sample(others, min(len(others), rnd.randrange(lo, 3)))
+    kind = rnd.choice(['parent', 'parent', 'children', 'succs', 'preds', 'both', 'both'])
+    if kind == 'parent':
+        def tree(o):
+            while _rawp(o) is not None:
+                o = _rawp(o)
+            return [o] + list(o.all_children)
+        xid = int(u.objs[x].id)
+        taken = [t for t in others if any(z.id != EMPTY and int(z.id) == xid for z in tree(u.objs[t]))]
+        return ['ctor', x, {'parent': rnd.choice(taken) if taken and rnd.random() < 0.6 else rnd.choice(others)}]
+    if kind == 'children':
+        return ['ctor', x, {'children': some(0)}]
+    if kind == 'succs':
+        return ['ctor', x, {'succs': some(1)}]
+    if kind == 'preds':
+        return ['ctor', x, {'preds': some(1)}]
+    preds = some(1)
+    ups = set(preds)
+    for p_ in preds:
+        ups.update(u.u(z) for z in u.objs[p_].all_predecessors)
+    ups = sorted(z for z in ups if z is not None and 0 <= z < u.m and z != x)
+    succs = [rnd.choice(ups)] if ups and rnd.random() < 0.6 else some(1)
+    return ['ctor', x, {'succs': succs, 'preds': preds}]
+
+
 def new_universe(case):
     return Universe(case['ids'], case['prio'], case['nw'], case.get('kinds'), case.get('alias', False))
 
@@ -664,6 +737,8 @@ def random_case(prop, rng, tier):
     if rng.random() < 0.75:
         order = list(range(m))
         rng.shuffle(order)
+        if rng.random() < 0.4:
+            order = order[:-rng.randrange(1, 3)]       # one or two tasks stay untouched: constructor calls are made for them below
         placed = []
         for t in order:
             r = rng.random()
@@ -696,6 +771,23 @@ def random_case(prop, rng, tier):
                 raise
             except Exception:  # noqa
                 pass
+    if rng.random() < 0.5:
+        for _ in range(rng.randrange(1, 3)):
+            try:
+                op = ctor_op(u, rng)
+            except common.MachineryError:
+                raise
+            except Exception:  # noqa
+                op = None
+            if op is None:
+                break
+            case['ops'].append(op)
+            try:
+                u.apply(op)
+            except common.MachineryError:
+                raise
+            except Exception:  # noqa
+                pass
     focused = bool(prefix) and rng.random() < 0.7
     tail = rng.randrange(3, 10) if focused else rng.randrange(10, 31 if tier == 'quick' else 41)
     for _ in range(tail):
@@ -716,11 +808,55 @@ def random_case(prop, rng, tier):
     return case
 
 
+def ctor_steps(u, op, pool):
+    """a constructor call is judged as the setter calls it is documented to make, in its order: parent, children, successors,
+    predecessors. With successors AND predecessors the state between the two is not observable; it is the one the model must reach by
+    the first call (successors of a task nothing refers to, all different: always accepted) - stated here and checked by the model."""
+    x, kw = op[1], op[2]
+    if not u.pristine(x):
+        return []           # (only in a shrunk or mutated history: the call is left out)
+    pre = u.snap()
+    wv0 = u.wbs_view(pool)
+    out = 'ok'
+    try:
+        u.apply(op)
+    except common.MachineryError:
+        raise
+    except Exception as e:  # noqa
+        out = classify_exc(e)
+    post = u.snap()
+    wv = u.wbs_view(pool)
+    seq = []
+    if kw.get('parent') is not None:
+        seq.append(['setParent', x, kw['parent']])
+    if kw.get('children') is not None:
+        seq.append(['setChildren', x, list(kw['children'])])
+    if kw.get('succs'):
+        seq.append(['setSuccs', x, list(kw['succs'])])
+    if kw.get('preds'):
+        seq.append(['setPreds', x, list(kw['preds'])])
+    if not seq:
+        seq = [['setChildren', x, []]]
+    if len(seq) == 1:
+        return [{'pre': pre, 'op': seq[0], 'out': out, 'post': post, 'wbs': wv, 'full_op': op}]
+    if len(seq) == 2 and seq[0][0] == 'setSuccs' and seq[1][0] == 'setPreds' and len(set(seq[0][2])) == len(seq[0][2]) and x not in seq[0][2]:
+        mid = {'t': [[r[0], r[1], list(r[2]), list(r[3]), list(r[4]), r[5]] for r in pre['t']]}
+        mid['t'][x][4] = list(seq[0][2])
+        for s_ in seq[0][2]:
+            mid['t'][s_][3] = mid['t'][s_][3] + [x]
+        return [{'pre': pre, 'op': seq[0], 'out': 'ok', 'post': mid, 'wbs': wv0, 'full_op': op},
+                {'pre': mid, 'op': seq[1], 'out': out, 'post': post, 'wbs': wv, 'full_op': op}]
+    raise common.MachineryError(f'constructor call outside the judged combinations: {kw}')
+
+
 def execute(prop, case):
     u = new_universe(case)
     pool = sorted(set(case['ids']))[:8] + [97, -1, sys.maxsize]     # (sys.maxsize: the id the hidden root of a WBS carries - not a member)
     steps = []
     for op in case['ops']:
+        if op[0] == 'ctor':
+            steps.extend(ctor_steps(u, op, pool))
+            continue
         op = u.concretise(op)
         pre = u.snap()
         out = 'ok'
